@@ -211,8 +211,8 @@ VARS = variants()
 NV = len(VARS)
 
 
-def diags_of(lines, gap):
-    text = "\n" * gap + "\n".join(lines)
+def diags_of(lines, gap, eol="\n"):
+    text = eol * gap + eol.join(lines)
     srv = ws.reset(SRV, {f"{R}/lib.f90": LIB, f"{R}/prog.f90": text})
     # what the server PUBLISHED for prog.f90 on didOpen
     pub = [o for o in srv.conn.out if o[0] == "notif" and o[1] == "textDocument/publishDiagnostics" and o[2]["uri"].endswith("prog.f90")]
@@ -222,18 +222,24 @@ def diags_of(lines, gap):
     return pub[-1][2]["diagnostics"], None
 
 
-def check_variant(v: int, gap: int):
+def check_variant(v: int, gap: int, case: int = 0, eol: str = "\n", trail: bool = False):
     desc, lines, expect = VARS[v]
-    got, err = diags_of(lines, gap)
+    if case:
+        lines = [ln.upper() if case == 1 else ln.title() if "'" not in ln else ln for ln in lines]
+        desc += f" case={case}"
+    if trail:  # trailing blanks and a trailing comment on every line that is not itself a comment / over-long line test
+        lines = [ln + "   ! trailing" if ln.strip() and not ln.lstrip().startswith("!") and len(ln) < 40 else ln for ln in lines]
+        desc += " trailing-comments"
+    got, err = diags_of(lines, gap, eol)
     if err:
         return f"{desc}: {err}"
     for line, sev, rx in expect:
         lines_ok = [x + gap for x in (line if isinstance(line, tuple) else (line,))]
-        hit = [d for d in got if d["severity"] == sev and re.search(rx, d["message"]) and d["range"]["start"]["line"] in lines_ok]
+        hit = [d for d in got if d["severity"] == sev and re.search(rx, d["message"], re.I) and d["range"]["start"]["line"] in lines_ok]
         if not hit:
             return f"{desc}: expected severity {sev} /{rx}/ on line {lines_ok}; published {[(d['severity'], d['message'], d['range']['start']['line']) for d in got]}"
     for d in got:
-        if d["severity"] == 1 and not any(re.search(rx, d["message"]) for _, s, rx in expect):
+        if d["severity"] == 1 and not any(re.search(rx, d["message"], re.I) for _, s, rx in expect):
             return f"{desc}: unrelated error published: {(d['message'], d['range']['start']['line'])}"
     return None
 
@@ -250,6 +256,30 @@ def seeded(v: int, gap: int) -> bool:
         if msg:
             FAIL.append(msg)
     tock("seeded")
+    return msg is None
+
+
+EOLS = ["\n", "\r\n", "\r"]
+
+
+def seeded_layout(v: int, case: int, eol: int, trail: bool) -> bool:
+    """the same defect variants under re-layout: letter case (as written / upper / title), line-ending convention,
+    trailing blanks + trailing comments on the short lines, 0..3 blank lines above: same class, same line
+    pre: 0 <= v < NV and 0 <= case <= 2 and 0 <= eol <= 2 and v % NPART == PART
+    pre: THOROUGH or (case + eol) % 3 == 1
+    post: _
+    """
+    tick("seeded_layout")
+    v, case, eol = conc(v, 0, NV - 1), conc(case, 0, 2), conc(eol, 0, 2)
+    trail = bool(trail)
+    msg = None
+    with NoTracing():
+        for gap in range(4):
+            msg = check_variant(v, gap, case, EOLS[eol], trail)
+            if msg:
+                FAIL.append(msg)
+                break
+    tock("seeded_layout")
     return msg is None
 
 
